@@ -24,6 +24,7 @@ from sim.props.ahbcommon import (
     gen_world,
     second_validation,
     shrink_validation,
+    widen,
 )
 from sim.props.common import LIVENESS_ERRORS, base_verdict, clone, fail, is_exception, liveness_verdict, strip_msg
 from sim.runner import pristine
@@ -124,9 +125,14 @@ def generate(seed, tier="quick"):
         rnd, pool, n_roots=(2, 3) if big else (1, 2), depth=rnd.choice([1, 2, 3] if big else [0, 1, 1, 2]), p_pool=0.35,
         n_segments=(1, 3) if big else (1, 2), n_des=(0, 3), fanout=(0, 2),
     )
+    if rnd.random() < 0.05:
+        ahb = widen(rnd, ahb, pool)  # the planted fault sits among (or is one of) more than ten siblings
     positions = positions_of(ahb)
     rnd = rng(seed, "c16-fault")
-    if big and len(positions) > VARIANTS // 2:
+    if len(positions) > VARIANTS:
+        # a widened AHB: every variant samples a single position or a small subset
+        chosen = sorted(rnd.sample(positions, rnd.choice([1, 1, 2, 3])), key=positions.index)
+    elif big and len(positions) > VARIANTS // 2:
         # more positions than variants: the first half of the variants samples single positions, the rest subsets
         if variant < VARIANTS // 2:
             chosen = [positions[(variant * len(positions)) // (VARIANTS // 2)]]
